@@ -21,7 +21,8 @@
    Interior pointers are not modelled (Reflect/Heap.v). *)
 From Coq Require Import List NArith.
 From Dials Require Import Base.Outcome Reflect.Ty Reflect.Heap Copy.DeepCopy Copy.DeepCopySpec
-  Copy.DeepCopyInv Copy.DeepCopyTerm Copy.DeepCopyBisim Copy.DeepCopySharing Copy.DeepCopyTotal Copy.DeepCopyFacts.
+  Copy.DeepCopyInv Copy.DeepCopyTerm Copy.DeepCopyBisim Copy.DeepCopySharing Copy.DeepCopyTotal Copy.DeepCopyFacts
+  Stack.ComposeH Stack.History Stack.ConfigGraphs.
 Import ListNotations.
 Open Scope N_scope.
 
@@ -81,9 +82,29 @@ Theorem deep_copy_fresh : forall h n0 v fuel st' v',
   (forall a, a < n0 -> hget (c_heap st') a = hget h a).
 Proof. exact deep_copy_fresh_b. Qed.
 
+(* The Config path on graphs, memory part (Stack/History.v: config_h with the
+   single event "Config's own stacking, no source"): entry copy of the defaults,
+   then compose copies that copy again and overlays nothing.  If the call
+   returns, the config is bisimilar to the caller's defaults (under the
+   composition of the two memo relations), allocated by the call, and the
+   caller's heap is untouched.  PARTIAL: conditional on the call returning
+   (each single copy terminates by deep_copy_terminates, but that the first
+   copy's output satisfies the rank/depth guard again is not proved), and
+   ptrify.Pointerify's walk over the interface payloads of the template is not
+   modelled (covered by the correspondence check, mode 1, only). *)
+Theorem config_on_graphs_partial : forall fuel fs h n0 defaults H N d vs,
+  wf_heapb h n0 = true -> defaults <? n0 = true ->
+  config_h fuel fs h n0 defaults [mk_event [] []] = Done ((H, N), d, vs) ->
+  exists v pm mm, vs = [v] /\
+    vrel pm mm H (HPtr (Some defaults)) (HPtr (Some (v_root v))) /\ bisim pm mm H /\
+    (forall a, reach H [(RCell, v_root v)] a -> n0 <= a /\ hget h a = None) /\
+    (forall a o, hget h a = Some o -> hget H a = Some o).
+Proof. exact config_on_graphs_partial_b. Qed.
+
 Print Assumptions deep_copy_terminates.
 Print Assumptions deep_copy_succeeds.
 Print Assumptions deep_copy_expands_once.
 Print Assumptions deep_copy_bisimilar.
 Print Assumptions deep_copy_sharing.
 Print Assumptions deep_copy_fresh.
+Print Assumptions config_on_graphs_partial.
